@@ -9,7 +9,7 @@ COMMON_ASSUME = [
 PROPS = {
     "C01": {
         "generators": [{"name": "C01"}],
-        "explanation": "Theorems: every API call on every invariant state answers from / updates the abstract contents as a plain map (flat index); the bucket chains implement lookup/insert/delete/split for arbitrary hashes and split policy; refinement chain -> flat and the run theorem over all op sequences (DBSim.v, Run.v). Tie: every call of seeded histories on engineered colliding key sets compared with the extracted model (both index instantiations, physical chain walk included) and a reference map; the Coq invariant is evaluated on every reached state.",
+        "explanation": "Theorems: every API call on every invariant state answers from / updates the abstract contents as a plain map (flat index); the bucket chains implement lookup/insert/delete/split for arbitrary hashes and split policy; refinement chain -> flat and the run theorems over all op sequences incl. Compact (DBSim.v, DBRun.v). Tie: every call of seeded histories on engineered colliding key sets compared with the extracted model (both index instantiations, physical chain walk included) and a reference map; the Coq invariant is evaluated on every reached state.",
         "trusted_base": ["hash function and split policy are arbitrary parameters of the theorems; the driver instantiates them with MurmurHash3 / the float64 load-factor test written in OCaml"],
         "assumptions": COMMON_ASSUME + ["physical overflow-bucket offsets and the free list are abstracted (a chain owns its buckets); MaxKeys guard not modelled"],
     },
@@ -35,7 +35,7 @@ PROPS = {
     },
     "C06": {
         "generators": [{"name": "C06"}],
-        "explanation": "Power-loss images enumerated per instant from the recorded calls (per file: synced content + prefix of pending operations, sector cuts) and reopened; contract = value at last completed Sync or a later write, also across an earlier process crash. Coq: ShapeCheck.seal_syncs / compact_order (sealing flushes, the source is removed after the flush) and PowerLoss.v.",
+        "explanation": "PowerLoss.v: C06_synced_writes_survive: for every history of Put/Delete/Sync/compaction steps, every later point and every admissible power-loss image (per file: dropped or torn suffix of unsynced data), recovery succeeds and the contents are those of the last sync point followed by a prefix of the later operations; sensitivity witnesses for the two flushes it needs. Not covered by the theorem: a recovering Open inside the history (harness only). Tie: power-loss images enumerated per instant from the recorded calls and reopened, also across an earlier process crash; ShapeCheck.seal_syncs / compact_order.",
         "assumptions": COMMON_ASSUME + ["power-loss model exactly as the property words it"],
     },
     "C07": {
@@ -51,7 +51,7 @@ PROPS = {
     },
     "C09": {
         "generators": [{"name": "C09"}],
-        "explanation": "Power-loss images at every call from the return of Close to the completion of the next Open, reopened; Coq: ShapeCheck.close_syncs (every file Close writes is flushed before the lock file is removed), close_ok (lock removal is the last event).",
+        "explanation": "PowerLoss.v: C09_closed_is_durable (every admissible power-loss image after a completed Close is the closed directory), C09_reopen (next Open without recovery, closed contents), C09_power_loss_during_reopen. Tie: power-loss images at every call from the return of Close to the completion of the next Open, reopened; ShapeCheck.close_syncs / close_order.",
         "assumptions": COMMON_ASSUME + ["power-loss model exactly as the property words it"],
     },
     "C10": {
